@@ -130,13 +130,23 @@ fn gen_line(rng: &mut Rng, fixed_point: bool) -> String {
 pub fn plan_for(seed: u64, run: u64) -> ProcPlan {
     let mut rng = Rng::new(run_seed(seed, TAG, run));
     let tool = if rng.chance(4, 5) { Tool::Predict } else { Tool::Evaluate };
-    let model = gen_model(&mut rng, &ModelKnobs { max_window: 3, max_entries: 8, ..ModelKnobs::default() });
+    let model = if !crate::mmodel::real_models().is_empty() && rng.chance(1, 8) {
+        rng.pick(crate::mmodel::real_models()).clone()
+    } else {
+        gen_model(&mut rng, &ModelKnobs { max_window: 3, max_entries: 8, ..ModelKnobs::default() })
+    };
     let meta = tool == Tool::Predict && rng.chance(3, 10);
     // usually a handful of lines; sometimes enough to cross 64 / 256 records
-    let n_lines = match rng.below(40) {
+    let soak = run % 2_000 == 1_999;
+    let n_lines = if soak {
+        // long-running process: past 2^16 records through one pair of sentence objects
+        rng.range(66_000, 70_000)
+    } else {
+        match rng.below(40) {
         0 => rng.range(60, 80),
         1 => rng.range(250, 300),
         _ => rng.range(0, 12),
+        }
     };
     let lines: Vec<String> = match tool {
         Tool::Predict => {
@@ -158,6 +168,10 @@ pub fn plan_for(seed: u64, run: u64) -> ProcPlan {
                             cs.into_iter().filter(|&c| c != '\n').collect()
                         }
                     },
+                    _ if soak => {
+                        let n = rng.range(0, 5);
+                        (0..n).map(|_| *rng.pick(gen::CORE)).collect()
+                    }
                     _ => gen_line(&mut rng, meta),
                 };
                 v.push(l);
